@@ -4,6 +4,6 @@ go 1.23.0
 
 require golang.org/x/exp v0.0.0-20220921023135-46d9e7742f1e
 
-require github.com/google/go-cmp v0.7.0 // indirect
+require github.com/google/go-cmp v0.7.0
 
 retract v1.2.0 // Published prematurely
